@@ -81,6 +81,12 @@ structure S where
   -- close: the flag is flipped and the flipper has still to run closeWithErrorWithoutLock / it has closed the fd
   tearPending : Bool := false
   fdClosed : Bool := false
+  -- ghosts of the kernel's edge-triggered reporting (maintained by `step`, never read by the code paths):
+  -- a writability report is due (EPOLL_CTL_ADD reports the current readiness; later the kernel reports
+  -- EPOLLOUT again only after it refused or shortened a write) / a call ran on a conn whose async connect had
+  -- not yet reached its connected callback (impossible through the API: the conn is handed out by that callback)
+  edgeDue : Bool := false
+  early : Bool := false
   -- kernel side
   reg : Bool := false         -- fd registered with epoll
   kOut : Bool := false        -- EPOLLOUT in the registered interest set
@@ -348,9 +354,105 @@ def timerFire (s : S) : S :=
 
 /-! ## transition system -/
 
+/-! ## the kernel's edge-triggered reporting (ghost) -/
+
+/-- the answer the direct write of Write / Writev ends with: interrupted attempts (EINTR) are retried;
+    an exhausted script means EAGAIN -/
+def directAns : List KAns → KAns
+  | [] => .eagain
+  | .eintr :: ks => directAns ks
+  | k :: _ => k
+
+/-- the kernel refused (part of) a request of `len` bytes: EAGAIN or a short count. The socket buffer is
+    full then, so a writability report will follow. -/
+def refused (k : KAns) (len : Nat) : Bool :=
+  match k with
+  | .eagain => true
+  | .wrote n => n < len
+  | _ => false
+
+/-- Write / Writev issue a direct write of `n` bytes and the kernel refuses (part of) it -/
+def directRefused (g : Cfg) (s : S) (n : Nat) (k : KAns) : Bool :=
+  !s.hung && !s.closed && n != 0 && !overflow g s n && s.wl.isEmpty && refused k n
+
+/-- some request of the direct loop of Sendfile (range of `rem` bytes) is refused -/
+def sendfileRefused : Nat → List KAns → Bool
+  | 0, _ => false
+  | _ + 1, [] => true
+  | rem + 1, k :: ks =>
+    match k with
+    | .eagain => true
+    | .eintr => sendfileRefused (rem + 1) ks
+    | .fail => false
+    | .wrote n0 =>
+      let cnt := min maxSendfile (rem + 1)
+      if n0 < cnt then true else sendfileRefused (rem + 1 - cnt) ks
+
+/-- some request of the flush loop over the queue `wl` is refused (mirrors the control flow of `flushLoop`
+    on sizes and answers only) -/
+def flushRefused : Nat → List Item → List KAns → Bool
+  | 0, _, _ => false
+  | _ + 1, [], _ => false
+  | fuel + 1, .buf d off :: tl, ks =>
+    let len := d.length - off
+    if len = 0 then flushRefused fuel (.buf d off :: tl) ks
+    else match ks with
+      | [] => true
+      | .eagain :: _ => true
+      | .eintr :: ks => flushRefused fuel (.buf d off :: tl) ks
+      | .fail :: _ => false
+      | .wrote n0 :: ks => if n0 < len then true else flushRefused fuel tl ks
+  | fuel + 1, .file off rem :: tl, ks =>
+    if rem = 0 then flushRefused fuel (.file off rem :: tl) ks
+    else match ks with
+      | [] => true
+      | .eagain :: _ => true
+      | .eintr :: ks => flushRefused fuel (.file off rem :: tl) ks
+      | .fail :: _ => false
+      | .wrote n0 :: ks => if n0 < rem then true else flushRefused fuel tl ks
+
+/-- update of the two ghosts -/
+def ghost (s : S) (edge early : Bool) : S := { s with edgeDue := edge, early := early }
+
+/-- a call on a conn whose async connect is in progress and whose connected callback has not started -/
+def isEarly (s : S) : Bool := s.connecting && !s.connEv
+
+def writeOp (g : Cfg) (s : S) (b : Bytes) (ks : List KAns) : S × Ret :=
+  let r := write g s b (directAns ks)
+  (ghost r.1 (s.edgeDue || directRefused g s b.length (directAns ks)) (s.early || isEarly s), r.2)
+
+def writevOp (g : Cfg) (s : S) (bs : List Bytes) (ks : List KAns) : S × Ret :=
+  let r := writev g s bs (directAns ks)
+  (ghost r.1 (s.edgeDue || directRefused g s (total bs) (directAns ks)) (s.early || isEarly s), r.2)
+
+def sendfileOp (g : Cfg) (s : S) (off len : Nat) (ks : List KAns) : S × Ret :=
+  let r := sendfile g s off len ks
+  (ghost r.1 (s.edgeDue || (!s.hung && !s.closed && s.wl.isEmpty && sendfileRefused (sendRange g off len) ks))
+    (s.early || isEarly s), r.2)
+
+/-- EPOLL_CTL_ADD reports the current readiness -/
+def registerOp (g : Cfg) (s : S) : S :=
+  ghost (register g s) (s.edgeDue || (!s.hung && !s.reg && !s.closed)) s.early
+
+def registerDialOp (g : Cfg) (s : S) : S :=
+  ghost (registerDial g s) (s.edgeDue || (!s.hung && !s.reg && !s.closed))
+    (s.early || (!s.hung && !s.reg && !s.closed && !s.wl.isEmpty))
+
+/-- the parts of a requested event that are delivered (ET: EPOLLOUT only when a report is due) -/
+def evDeliv (g : Cfg) (s : S) (out inn err : Bool) : Bool × Bool × Bool :=
+  deliverable s (out && (g.mode != .et || s.edgeDue)) inn err
+
+/-- ET reports EPOLLOUT only when a report is due and consumes it; the flush it triggers may earn the next one -/
+def evTakeOp (g : Cfg) (s : S) (out inn err : Bool) (ks : List KAns) : S :=
+  let out := out && (g.mode != .et || s.edgeDue)
+  let d := deliverable s out inn err
+  let t := evTake g s out inn err ks
+  ghost t ((if d.1 && g.mode == .et then false else s.edgeDue) ||
+      (d.1 && !s.connecting && flushRefused (ks.length + 1) s.wl ks)) s.early
+
 inductive Op
-  | write (b : Bytes) (k : KAns)
-  | writev (bs : List Bytes) (k : KAns)
+  | write (b : Bytes) (ks : List KAns)
+  | writev (bs : List Bytes) (ks : List KAns)
   | sendfile (off len : Nat) (ks : List KAns)
   | register
   | registerDial
@@ -363,12 +465,12 @@ inductive Op
   | timerFire
 
 def step (g : Cfg) (s : S) : Op → S
-  | .write b k => (write g s b k).1
-  | .writev bs k => (writev g s bs k).1
-  | .sendfile off len ks => (sendfile g s off len ks).1
-  | .register => register g s
-  | .registerDial => registerDial g s
-  | .evTake o i e ks => evTake g s o i e ks
+  | .write b ks => (writeOp g s b ks).1
+  | .writev bs ks => (writevOp g s bs ks).1
+  | .sendfile off len ks => (sendfileOp g s off len ks).1
+  | .register => registerOp g s
+  | .registerDial => registerDialOp g s
+  | .evTake o i e ks => evTakeOp g s o i e ks
   | .evEnd => evEnd g s
   | .flipClosed => flipClosed s
   | .teardown => teardown s
